@@ -11,7 +11,7 @@ ENGINE = 'E1 choice-point explorer, deviation-bounded over {full, bare} default 
 RULE = ("same lattice as C04 with value palettes per attribute kind (ints at code edges, floats incl. -0.0, inf, NaN, "
         "max, subnormal, numpy scalars; ASCII lengths 0..300; IDENT up to 255; aware/naive datetimes and both string "
         "formats; enum members and free strings; references) x assignment route {keyword, dict, one dict object re-used for equal values, AttrSetup, later "
-        ".value/.units, set_attributes}; plus, per attribute, a chain write -> re-assign to every value option in turn -> "
+        ".value/.units, set_attributes}; plus a plain second write of the untouched objects, and, per attribute, a chain write -> re-assign to every value option in turn -> "
         "write, each file compared with the model; plus a channel inside a frame with data (user DIMENSION / ELEMENT-LIMIT vs the values derived at write time, full product over width, source, topology); non-trivial = file written and every object of the logical file compared "
         "attribute by attribute with the model")
 ASSUMPTIONS = ["strict reader mc/rp66.py", "reference model mc/model.py and schema mc/schema.py (labels, kinds, fixed "
@@ -104,6 +104,33 @@ def in_frame(ctx):
     return Outcome(f"ok:in-frame:{c['el']}", viol, True, digest=sha(res['data']))
 
 
+def write_twice(sp, info, shard):
+    """The same objects written twice without touching them in between: what the user assigned is still what the second
+    file holds (nothing the first write worked out may take its place)."""
+    import os
+    from mc.engine import scratch_dir
+    b = S.build(sp)
+    if b.failed_at is not None:
+        return Outcome('build-raised', [], False)
+    path = os.path.join(scratch_dir(), 'c05-twice.dlis')
+    wkw = S.write_kwargs(sp, b)
+    try:
+        b.df.write(path, **wkw)
+        b.df.write(path, **wkw)
+    except Exception as e:  # noqa
+        return Outcome('write-raised', [], False, digest=str(e)[:40])
+    viol = []
+    data = open(path, 'rb').read()
+    try:
+        lfs = R.split_logical_files(R.parse_physical(data))
+        m = M.Model(sp)
+        for code, d in M.check_inventory(m, m.lfs[0], lfs[0]) + M.check_attrs(m, m.lfs[0], lfs[0]):
+            viol.append((f"C05:{code}:second-write-unchanged", f"{d[:300]} | kind={shard['kind']} route={info['route']}"))
+    except R.FormatError as e:
+        viol.append((f"C05:unparsable:{e.code}:second-write-unchanged", f"{e} | kind={shard['kind']}"))
+    return Outcome('ok:written-twice', viol, True, digest=sha(data))
+
+
 def body(ctx, shard):
     if shard['mode'] == 'in-frame':
         return in_frame(ctx)
@@ -111,7 +138,9 @@ def body(ctx, shard):
     cand = [ad.kw for ad in lattice.settable(shard['kind']) if ad.kw in info['assigned']
             and not (shard['kind'] == 'frame' and ad.kw == 'channels')
             and not (shard['kind'] == 'origin' and ad.kw == 'file_set_number')]
-    re_kw = ctx.choose('reassign-after-write', [None] + cand)
+    re_kw = ctx.choose('reassign-after-write', [None, '__write-twice-unchanged__'] + cand)
+    if re_kw == '__write-twice-unchanged__':
+        return write_twice(sp, info, shard)
     if re_kw is not None:
         return reassign_chain(sp, info, shard, re_kw)
     res = S.run_spec(sp)
